@@ -82,7 +82,8 @@ class Check:
                 parts = k.split("|")
                 self.instances.append((new_rule, "|".join([new_rule] + parts[1:]), okk, "[%s %s] %s" % (src_pid, rule, detail), where))
                 n += 1
-        if n < floor:
+        if n < floor and not any(not i[2] for i in self.instances if i[0] == new_rule):
+            # fewer instances than confirmed on the pinned tree and none of them failing: the selection went vacuous
             raise CannotDecide("%s's rules selected for %s produced %d instance(s), expected at least %d" % (src_pid, new_rule, n, floor))
         return n
 
